@@ -364,7 +364,45 @@ def r01_6(chk):
     chk.ok("R01.6", key(OLD, "<sequence classes>", "constructor calls scanned"), f"src/cogent3/{OLD}:1", f"{n} coordinate-carrying constructions over realised strings", nontrivial=False)
 
 
+def r01_7(chk):
+    chk.rule("R01.7", "the value accessors of a view (str_value, bytes_value, array_value) realise the same slice: in SeqDataView they are equal after normalisation up to the storage getter they call (get_seq_str / get_seq_bytes / get_seq_array); in the SeqView classes the bytes and array accessors are derived from str_value -- a view must read the same through str(), bytes() and numpy.array() (stated limit as for the twins: a one-sided rewrite that survives the normaliser is reported)")
+    import re as _re
+
+    m = chk.repo.module(NEWALN)
+    ci = m.cls("SeqDataView")
+    texts = {}
+    for acc in ("str_value", "bytes_value", "array_value"):
+        g = ci.properties.get(acc, {}).get("get")
+        if g is None:
+            raise AnalysisError(f"SeqDataView.{acc} not found")
+        t = twins.normal_text(g)
+        texts[acc] = (_re.sub(r"get_seq_(str|bytes|array)", "get_seq_X", t), g)
+    ref = texts["str_value"][0]
+    for acc in ("bytes_value", "array_value"):
+        t, g = texts[acc]
+        if t == ref:
+            chk.ok("R01.7", key(m, f"SeqDataView.{acc}", "same slice as str_value"), m.loc(g), "equal to str_value up to the storage getter")
+        else:
+            import difflib
+
+            d = [l.strip() for l in difflib.unified_diff(ref.splitlines(), t.splitlines(), lineterm="", n=0) if not l.startswith(("---", "+++", "@@"))][:6]
+            chk.violation("R01.7", key(m, f"SeqDataView.{acc}", "same slice as str_value"), m.loc(g), f"{acc} realises the view differently from str_value: {' ; '.join(d)} -- numpy.array(seq), to_rna()/to_dna(), get_translation() then read other residues than str(seq) on some views (e.g. reversed with |step| >= 2)")
+    for rel, cname in ((OLD, "SeqView"), (NEW, "SeqView")):
+        mm = chk.repo.module(rel)
+        cc = mm.classes.get(cname)
+        if cc is None:
+            continue
+        for acc in ("bytes_value", "array_value"):
+            g = cc.properties.get(acc, {}).get("get")
+            if g is None:
+                continue
+            derived = any(isinstance(x, ast.Attribute) and norm(x) in ("self.str_value", "self.value") for x in ast.walk(g))
+            chk.decide(derived, "R01.7", key(mm, f"{cname}.{acc}", "derived from the string accessor"), mm.loc(g), "computed from self.str_value", f"{cname}.{acc} no longer derives from the string accessor: the accessors can disagree")
+    chk.floor("R01.7", 3, "SeqDataView twins + SeqView derivations")
+
+
 def run(chk):
+    r01_7(chk)
     r01_6(chk)
     r01_1_2(chk)
     r01_3(chk)
